@@ -78,8 +78,38 @@ def copy_sig(s):
                 identifiers={k: dict(v) for k, v in s['identifiers'].items()})
 
 
+SECOND = None          # edit scripts of length two: (class, attribute) renamed AFTER the first edit, before extraction
+_APPLIED = [False]
+
+
+def component(bp, *args, **kwargs):
+    _APPLIED[0] = False
+    if SECOND is not None:
+        kl2, name2 = SECOND
+        with notrace():
+            cand = [a for a in bp.select_many('O_ATTR') if one(a).O_OBJ[102]().Key_Lett == kl2 and a.Name == name2]
+        if len(cand) == 1:
+            cand[0].Name = 'Yy_' + name2
+            _APPLIED[0] = True
+    return ooaofooa.mk_component(bp, *args, **kwargs)
+
+
+def rename_sig(exp, kl, name, new):
+    ren = lambda k, n: new if (k.upper() == kl.upper() and n == name) else n
+    exp['classes'] = {k: [(ren(k, n), t) for n, t in v] for k, v in exp['classes'].items()}
+    exp['identifiers'] = {k: {i: frozenset(ren(k, n) for n in s) for i, s in v.items()} for k, v in exp['identifiers'].items()}
+    exp['assocs'] = sorted((rel, sk, tuple(ren(sk, n) for n in skeys), sc, tp, tk, tuple(ren(tk, n) for n in tkeys), tc, sp)
+                           for (rel, sk, skeys, sc, tp, tk, tkeys, tc, sp) in exp['assocs'])
+    return exp
+
+
 def finish(dom, exp, what):
     global LAST_DIFF
+    if SECOND is not None:
+        if not _APPLIED[0]:
+            return None          # the first edit removed / renamed that attribute, or the path does not extract through component()
+        exp = rename_sig(copy_sig(exp), SECOND[0], SECOND[1], 'Yy_' + SECOND[1])
+        what = what + ', then rename %s.%s' % SECOND
     got = sig_of(dom)
     for key in ('classes', 'assocs', 'identifiers'):
         if got[key] != exp[key]:
@@ -100,7 +130,7 @@ def check_mult_cond(si: int, mu: int, co: int) -> bool:
         end = list(bp.select_many(kind))[n]
     end.Mult = mu
     end.Cond = co
-    dom = ooaofooa.mk_component(bp)
+    dom = component(bp)
     case(EDIT, kind, n)
     exp = copy_sig(BASE)
     with notrace():
@@ -139,7 +169,7 @@ def check_phrase(p1: str, p2: str) -> bool:
         k_one = tuple(ref_names_across(aone)); k_oth = tuple(ref_names_across(aoth))
     aone.Txt_Phrs = p1
     aoth.Txt_Phrs = p2
-    dom = ooaofooa.mk_component(bp)
+    dom = component(bp)
     case(EDIT)
     exp = copy_sig(BASE)
     new = []
@@ -173,7 +203,7 @@ def check_rename(si: int) -> bool:
         bp = load_bp()
         attr = [a for a in bp.select_many('O_ATTR') if one(a).O_OBJ[102]().Key_Lett == kl and a.Name == name][0]
     attr.Name = 'Zz_' + name
-    dom = ooaofooa.mk_component(bp)
+    dom = component(bp)
     case(EDIT, kl, name)
     new = 'Zz_' + name
     exp = copy_sig(BASE)
@@ -233,7 +263,7 @@ def check_retype(bi: int, ti: int) -> bool:
         xtuml.unrelate(attr, one(attr).S_DT[114](), 114)
         xtuml.relate(attr, new_dt, 114)
         affected = refers_to(bp, kl, name)
-    dom = ooaofooa.mk_component(bp)
+    dom = component(bp)
     case(EDIT, kl, name, TYPES[ti])
     core = 'INTEGER' if (one(new_dt).S_EDT[17]() or TYPES[ti] in ('My_Integer', '*2', '*3', '*e2')) else TYPES[ti].upper()
     exp = copy_sig(BASE)
@@ -263,7 +293,7 @@ def check_reorder(si: int) -> bool:
         if third is not None:
             xtuml.relate(first, third, 103, 'precedes')
         n1, n2 = first.Name, second.Name
-    dom = ooaofooa.mk_component(bp)
+    dom = component(bp)
     case(EDIT, kl)
     exp = copy_sig(BASE)
     lst = exp['classes'][kl.upper()]
@@ -289,7 +319,7 @@ def check_identifier(si: int) -> bool:
         o_id = one(o).O_ID[104](lambda s: s.Oid_ID == 1)
         oida = bp.new('O_OIDA', localAttributeName=name)
         xtuml.relate(oida, attr, 105); xtuml.relate(oida, o_id, 105)
-    dom = ooaofooa.mk_component(bp)
+    dom = component(bp)
     case(EDIT, kl, name)
     exp = copy_sig(BASE)
     with notrace():
@@ -328,14 +358,14 @@ def check_variants(which: int) -> bool:
         else:
             bp = load_bp()
     if which == 1:
-        dom = ooaofooa.mk_component(bp, bp.select_one('C_C'))
+        dom = component(bp, bp.select_one('C_C'))
     elif which == 2:
-        dom = ooaofooa.mk_component(bp, None, True)
+        dom = component(bp, None, True)
     elif which == 3:
         l = ooaofooa.Loader(); l.statements = list(LOADER.statements)
         dom = l.build_component(bp.select_one('C_C').Name)
     else:
-        dom = ooaofooa.mk_component(bp)
+        dom = component(bp)
     case(EDIT, which)
     exp = copy_sig(BASE)
     if which == 2:
@@ -402,8 +432,49 @@ def check_nested(mi: int, how: int) -> bool:
         xtuml.relate(pkg, pe_p, 8001); xtuml.relate(pe_p, c_c, 8003)
         xtuml.unrelate(pe, home, 8000); xtuml.relate(pe, pkg, 8000)
     if how == 0:
-        dom = ooaofooa.mk_component(bp, outer)
+        dom = component(bp, outer)
     else:
-        dom = ooaofooa.mk_component(bp)
+        dom = component(bp)
     case(EDIT, kind, n, how)
     return finish(dom, copy_sig(BASE), 'moved %s #%d into a nested component (variant %d)' % (kind, n, how))
+
+
+def _second(si2, fn, *args):
+    global SECOND
+    SECOND = ATTR_SITES[cs(si2, 0, NATTR - 1)]
+    try:
+        return fn(*args)
+    finally:
+        SECOND = None
+
+
+def check_mult_cond2(si: int, mu: int, co: int, si2: int) -> bool:
+    """
+    pre: 0 <= si < NEND and 0 <= mu <= 1 and 0 <= co <= 1 and 0 <= si2 < NATTR
+    post: POST(_)
+    """
+    return _second(si2, check_mult_cond, si, mu, co)
+
+
+def check_retype2(bi: int, ti: int, si2: int) -> bool:
+    """
+    pre: 0 <= bi < NBASE and 0 <= ti < NTYPES and 0 <= si2 < NATTR
+    post: POST(_)
+    """
+    return _second(si2, check_retype, bi, ti)
+
+
+def check_reorder2(si: int, si2: int) -> bool:
+    """
+    pre: 0 <= si < NSWAP and 0 <= si2 < NATTR
+    post: POST(_)
+    """
+    return _second(si2, check_reorder, si)
+
+
+def check_identifier2(si: int, si2: int) -> bool:
+    """
+    pre: 0 <= si < NATTR and 0 <= si2 < NATTR
+    post: POST(_)
+    """
+    return _second(si2, check_identifier, si)
